@@ -21,7 +21,9 @@ PLSS_TEXTS = ['T154N-R97W Sec 14: NE/4, Sec 15: Lots 1 - 3, Lot 1', 'T154-R97 Se
               # OCR artefacts: read only under ocr_scrub -- a non-committing parse(ocr_scrub=True) must not make later parses read them
               'TlS4N-R97W Sec 14: NE/4', 'T1S4N-R9OW Sec I4: NE/4, Sec 15: W/2',
               # blocks that yield neither lots nor aliquots, under description-level flags that are handed down to the tracts
-              'T154N-R97W Sections 14 - 15: That part lying north of the river', 'T154-R97 Sec 14: less and except the wellbore, Sec 15: NE']
+              'T154N-R97W Sections 14 - 15: That part lying north of the river', 'T154-R97 Sec 14: less and except the wellbore, Sec 15: NE',
+              # the same description-level flag raised twice (two exception clauses far apart)
+              'T154N-R97W Sec 14: NE/4 less and except the north 10 acres thereof; Sec 15: SW/4 less and except the south 5 acres; Sec 16: Lots 1 - 3']
 T_KWS = [{}, {'clean_qq': True}, {'qq_depth': 1}, {'qq_depth_min': 1, 'qq_depth_max': 3}, {'break_halves': True}, {'suppress_lot_divs': True}, {'clean_qq': False, 'qq_depth_min': 3}]
 P_KWS = [{}, {'parse_qq': True}, {'segment': True}, {'sec_colon_required': True}, {'sec_colon_cautious': True}, {'default_ns': 's', 'default_ew': 'e'},
          {'layout': 'copy_all'}, {'clean_qq': True, 'parse_qq': True}, {'sec_within': True}, {'ocr_scrub': True}]
@@ -262,7 +264,9 @@ def run(tier, mode):
             # ... and re-parsing the tracts loses nothing the description had handed down to them: every flag of the description is still on each tract
             n_or += 1
             for t in d.tracts:
-                lost = [f for f in list(d.w_flags) + list(d.e_flags) if f not in t.w_flags + t.e_flags]
+                import collections as _c
+                have = _c.Counter(t.w_flags + t.e_flags)
+                lost = [f for f, k_ in _c.Counter(list(d.w_flags) + list(d.e_flags)).items() if have[f] < k_]      # with multiplicity: the same flag raised twice stays twice
                 if lost:
                     fail('parse_tracts_lost_handed_down_flags', {'class': 'PLSSDesc', 'text': text, 'config': cfg, 'parse_qq': pq, 'wait': wait, 'ops': ops, 'tract': t.trs}, lost, 'every description flag still on the tract')
                     break
@@ -296,6 +300,17 @@ def run(tier, mode):
         for how, obj in (('re-parse of the first object', d0 if not isinstance(again, H.Exn) else again), ('new object', fresh)):
             if isinstance(obj, H.Exn) or proj0(obj) != p0:
                 fail('reparse_after_other_histories_differs', {'class': 'PLSSDesc', 'text': text, 'config': '', 'how': how}, obj if isinstance(obj, H.Exn) else proj0(obj), p0)
+        # ... and re-parsing its tracts keeps every flag the description handed down, with multiplicity
+        if not isinstance(again, H.Exn) and not isinstance(H.call(d0.parse_tracts), H.Exn):
+            import collections as _c2
+            n_or += 1
+            for t in d0.tracts:
+                have = _c2.Counter(t.w_flags + t.e_flags)
+                lost = [f for f, k_ in _c2.Counter(list(d0.w_flags) + list(d0.e_flags)).items() if have[f] < k_]
+                if lost:
+                    fail('parse_tracts_lost_handed_down_flags', {'class': 'PLSSDesc', 'text': text, 'config': 'parse_qq', 'ops': ['parse()', 'parse_tracts()'], 'tract': t.trs}, lost,
+                         'every description flag still on the tract, as often as the description has it')
+                    break
     parts = {}
     if cases:
         parts['model_vs_code'] = H.diff_cases(cases, nontrivial=lambda e: len(e) > 200)
